@@ -79,6 +79,13 @@ func ZzC08() {
 		zz.Assert(tail.H == wantTail && head.H >= wantHead, "Head and Tail describe the remaining chain ("+stage+")")
 	}
 	check("immediately")
+	if zz.Bool("restart.after") {
+		// a restart before anything else is flushed: the pointers written by the deletion itself must be right
+		zz.Assert(s.Stop(ctx) == nil, "Stop ok")
+		s = zzOpen(sc.d, sc.cfg)
+		zz.Reach("restart-after-delete")
+		check("after an immediate restart")
+	}
 	// continuation: later appends and flushes must not bring deleted headers back
 	if sc.to == sc.headH+1 && !whole {
 		// head-side: the chain continues from the new head with fresh headers of the deleted heights? no:
